@@ -32,15 +32,17 @@ theorem source_shapes_present :
     Gen.TxRx.sourceShapes =
       ["exit_condition", "chunk_len", "chunk_start", "chunk_slice", "start_addr", "lrw_rest", "state_checks_call",
        "empty_frame_exit", "wkc_add", "sent_add", "state_push", "frmw_push", "time_unpack", "state_fprd",
-       "state_can_push", "rx_range", "rx_copy", "dc_pdu_size", "dc_ref_nonzero"] := by decide
+       "state_can_push", "rx_range", "rx_copy", "sync_lock_in_clock_branch", "sync_fallback", "dc_pdu_size",
+       "dc_ref_nonzero"] := by decide
 
 /-! ### The three entry points are the one loop -/
 
 theorem variants (c : Cfg) (image : List Nat) (resps : List (List RPdu)) (idx0 ref : Nat) :
     txRx c image resps idx0 = cycle { c with dc := none } image resps idx0 ∧
     txRxDc c ref image resps idx0 = cycle { c with dc := some ref } image resps idx0 ∧
-    (0 < ref → txRxSyncSystemTime c ref image resps idx0 = cycle { c with dc := some ref } image resps idx0) := by
-  refine ⟨by simp [txRx, txRxWith], rfl, fun h => by simp [txRxSyncSystemTime, h]⟩
+    (0 < ref → txRxSyncSystemTime c ref image resps idx0 = cycle { c with dc := some ref } image resps idx0) ∧
+    txRxSyncSystemTime c 0 image resps idx0 = cycle { c with dc := none } image resps idx0 := by
+  refine ⟨rfl, rfl, fun h => by simp [txRxSyncSystemTime, h], by simp [txRxSyncSystemTime, txRx]⟩
 
 /-! ### Reading the result of `cycle` -/
 
@@ -338,51 +340,29 @@ theorem no_error_when_answered (c : Cfg) (image : List Nat) (resps : List (List 
     | panic w => simp at herr
   exact loop_err_misshaped hc hn _ _ (FrInv.init c image resps idx0) (RInv.init c image resps idx0) e hne hl
 
-/-! ### `tx_rx_sync_system_time` without a DC reference -/
+/-! ### All three entry points terminate -/
 
-/-- **terminates (partial) for `tx_rx_sync_system_time`.** With a DC reference stored in the MainDevice the call is
-    the clock loop and never hangs or runs out of fuel. -/
-theorem sync_terminates_partial (c : Cfg) (ref : Nat) (image : List Nat) (resps : List (List RPdu)) (idx0 : Nat)
-    (href : 0 < ref) (hc : CfgOk { c with dc := some ref } image.length) :
-    (txRxSyncSystemTime c ref image resps idx0).res ≠ .err .fuel ∧
-    (txRxSyncSystemTime c ref image resps idx0).res ≠ .err .deadlock := by
-  rw [(variants c image resps idx0 ref).2.2 href]
-  refine ⟨terminates _ image resps idx0 hc, ?_⟩
-  intro h
-  have hl : (loop { c with dc := some ref } (fuelFor { c with dc := some ref } image)
-      (initSt { c with dc := some ref } image resps idx0)).2 = .err .deadlock := by
-    unfold cycle finish at h
-    generalize loop { c with dc := some ref } (fuelFor { c with dc := some ref } image)
-      (initSt { c with dc := some ref } image resps idx0) = L at h ⊢
-    obtain ⟨s, o⟩ := L
-    cases o with
-    | ok u => cases u; simp at h
-    | err e' => simp at h ⊢; exact h
-    | panic w => simp at h
-  -- a run of the loop ends with `fuel`, `timeout`, `internal` or `wireShort`, never `deadlock`
-  obtain ⟨sl, hsl, hcase⟩ := loop_final { c with dc := some ref }
-    (FrInv { c with dc := some ref } image (Phi { c with dc := some ref } (initSt { c with dc := some ref } image resps idx0)))
-    (fun s s' h hs => h.continue hc hs) _ _ (FrInv.init { c with dc := some ref } image resps idx0)
-  have hs : sl.sent ≤ sl.image.length := by rw [hsl.len]; exact hsl.sent
-  have hc' : CfgOk { c with dc := some ref } sl.image.length := by rw [hsl.len]; exact hc
-  rcases hcase with h1 | ⟨s', _, h1⟩ | ⟨s', e, hst, h1⟩ | ⟨s', w, _, h1⟩
-  · rw [h1] at hl; cases hl
-  · rw [h1] at hl; cases hl
-  · rw [h1] at hl; cases hl
-    rcases step_cases hc' hs with ⟨hd, _⟩ | ⟨fr, idx', hg, ⟨_, hf⟩ | ⟨r, rs, hr, hcn⟩⟩
-    · rw [hd] at hst; cases hst
-    · rw [hf] at hst; cases hst
-    · rw [hcn] at hst
-      rcases consume_fail_kinds hst with h2 | h2 <;> cases h2
-  · rw [h1] at hl; cases hl
+/-- **terminates, all variants.** `tx_rx`, `tx_rx_dc` and `tx_rx_sync_system_time` — the latter with or without a DC
+    reference stored in the MainDevice (without one it is `tx_rx`, which takes the image lock itself) — never
+    exhaust the fuel, for every frame size the variant that runs allows. -/
+theorem terminates_all_variants (c : Cfg) (image : List Nat) (resps : List (List RPdu)) (idx0 ref : Nat) :
+    (CfgOk { c with dc := none } image.length →
+      (txRx c image resps idx0).res ≠ .err .fuel ∧ (txRxSyncSystemTime c 0 image resps idx0).res ≠ .err .fuel) ∧
+    (CfgOk { c with dc := some ref } image.length →
+      (txRxDc c ref image resps idx0).res ≠ .err .fuel ∧
+      (0 < ref → (txRxSyncSystemTime c ref image resps idx0).res ≠ .err .fuel)) := by
+  obtain ⟨h1, h2, h3, h4⟩ := variants c image resps idx0 ref
+  refine ⟨fun hc => ⟨?_, ?_⟩, fun hc => ⟨?_, fun href => ?_⟩⟩
+  · rw [h1]; exact terminates _ image resps idx0 hc
+  · rw [h4]; exact terminates _ image resps idx0 hc
+  · rw [h2]; exact terminates _ image resps idx0 hc
+  · rw [h3 href]; exact terminates _ image resps idx0 hc
 
-/-- **terminates counterexample for `tx_rx_sync_system_time`.** Without a DC reference (stored address 0: no
-    SubDevice of the network supports distributed clocks) the call takes the image write lock and then calls
-    `tx_rx`, which requests the same lock: it never returns, for every group, image and network. -/
-theorem sync_terminates_counterexample (c : Cfg) (image : List Nat) (resps : List (List RPdu)) (idx0 : Nat) :
-    (txRxSyncSystemTime c 0 image resps idx0).res = .err .deadlock ∧
-    (txRxSyncSystemTime c 0 image resps idx0).frames = [] := by
-  simp [txRxSyncSystemTime, txRxWith]
+/-- Regression witness of the repaired defect (KNOWN_FINDINGS `fixed:` C07): without a DC reference
+    `tx_rx_sync_system_time` on an empty group and image returns `Ok` with no time, having sent nothing. -/
+theorem sync_without_reference_returns :
+    (txRxSyncSystemTime { cap := 64, pdiStart := 0, readLen := 0, addrs := [], maxSd := 16, mode := .checked, dc := none }
+      0 [] [] 0).res = .ok ⟨0, [], none⟩ := by decide
 
 /-! ### Non-vacuity: concrete cycles satisfying the hypotheses -/
 
